@@ -94,7 +94,34 @@ def generate(seed, tier="quick"):
     prof.alphabet = "plain"
     prog = W.gen_program(rng, prof, {"prev": ["none", "none", "other", "edit"], "n_files": (1, 2), "n_sites": (1, 4), "n_tests": (1, 2), "styles": ["rec"],
                                      "ops": ["eq", "eq", "in", "item"], "layout": False})
-    return {"program": prog, "flags": sub(seed, "flags").choice(["create,fix", "create,fix,update", "create,fix,trim,update"]),
+    trng = sub(seed, "twins")
+    twins = None
+    if trng.random() < 0.4:
+        # "equal but distinguishable" values observed in the same session (1 / True / 1.0, 0.0 / -0.0, inside tuples and frozensets):
+        # the text written for one must not depend on the other having been seen first
+        f = prog["files"][0]
+        base = trng.choice([[["int", 1], ["str", "x"]], [["int", 0], ["int", 1]], [["float", "0.0"], ["int", 2]], [["int", 1], ["int", 2]]])
+
+        def retype(n):
+            if n[0] == "int" and n[1] in (0, 1):
+                return trng.choice([["bool", bool(n[1])], ["float", repr(float(n[1]))]])
+            if n[0] == "int":
+                return ["float", repr(float(n[1]))]
+            if n[0] == "float" and n[1] == "0.0":
+                return ["float", "-0.0"]
+            return n
+
+        wrap = trng.choice(["tuple", "tuple", "frozenset", "bare"])
+        variants = [base, [retype(n) for n in base]]
+        trng.shuffle(variants)
+        twins = []
+        for k, items in enumerate(variants):
+            val = ["tuple", items] if wrap == "tuple" else ["frozenset", items] if wrap == "frozenset" else items[0]
+            sid = f"tw{k}"
+            f["sites"][sid] = {"op": trng.choice(["eq", "eq", "in", "le"]) if wrap in ("bare", "tuple") else trng.choice(["eq", "in"]), "place": "direct", "arg": None, "prev": None}
+            f["tests"].append({"name": f"test_twin{k}", "events": [{"t": "cmp", "eid": f"etw{k}", "site": sid, "vals": [val], "style": "rec"}]})
+            twins.append(sid)
+    return {"program": prog, "twins": twins, "flags": sub(seed, "flags").choice(["create,fix", "create,fix,update", "create,fix,trim,update"]),
             "driver": "plugin" if sub(seed, "driver").random() < 0.1 else "inline", "dict_order": sub(seed, "do").randint(0, 10**6)}
 
 
@@ -235,6 +262,32 @@ def execute(case, ctx):
                         viol("construction-order-independence", "equal-value-built-in-another-order-rewrites-the-snapshot",
                              f"{k}: the same values with dicts / sets built in another insertion order made a session with fix approved rewrite the file\n--- before\n{files2[k][:800]}\n--- after\n{r['files'][k][:800]}")
                         break
+    # ---- the text written for a value depends only on the value and the file, not on which equal-but-distinguishable
+    #      value the session happened to see before it
+    if case.get("twins"):
+        fn0 = prog["files"][0]["name"]
+        for keep in case["twins"]:
+            drop = [t for t in case["twins"] if t != keep][0]
+            prog3 = json.loads(json.dumps(prog))
+            f3 = prog3["files"][0]
+            f3["tests"] = [t for t in f3["tests"] if not any(e.get("site") == drop for e in t["events"])]
+            del f3["sites"][drop]
+            files3, orders3 = P.render(prog3, drivers.simlib_text())
+            r3 = call("0", "inline", files3, {"flags": flags, "fmt": {"kind": "black"}})
+            ctx.sessions += 1
+            ctx.log.append({"twin_alone": keep, "files": r3["files"]})
+            if not r3["completed"]:
+                continue
+            try:
+                alone = sim.site_map({fn0: r3["files"][fn0]}, {fn0: orders3[fn0]})
+                both = sim.site_map({fn0: ref[fn0]}, {fn0: orders[fn0]})
+            except SyntaxError:
+                continue
+            ctx.count("probe_equal_but_distinguishable_twins")
+            a, b = alone[(fn0, keep)].region_text, both[(fn0, keep)].region_text
+            if a != b:
+                viol("depends-only-on-value", "text-depends-on-an-equal-value-seen-earlier-in-the-session",
+                     f"site {keep}: written {a!r} when observed alone, but {b!r} when the equal-but-different value of site {drop} is observed in the same session\n{ref[fn0][:900]}")
     out["sample"] = {"flags": flags, "driver": driver, "hash_sensitive_sets": nsens, "file": ref[tests[0]][:600]}
     return out
 
